@@ -561,6 +561,14 @@ struct HtableFamily : Family {
     push(GET, in->A + in->B - 1);
   }
 
+  void pre_witness(Instance *ip, const Op &op, Ctx &ctx) override
+  {
+    HInst *in = (HInst *)ip;
+    if (op.c == PUT && in->model.count((int)op.a)) ctx.witness("overwrite");
+    if ((op.c == DEL || op.c == CLAIM) && !in->model.count((int)op.a)) ctx.witness("remove_missing");
+    if (op.c == BG_POP && in->bg == 0) ctx.witness("remove_missing");
+  }
+
   void compare(HInst *in, Ctx &ctx)
   {
     Front *fr = in->fr;
@@ -634,7 +642,6 @@ struct HtableFamily : Family {
       in->variant[k] = var;
       if (ctx.checking) {
         ctx.outcome(over ? "overwrite" : "fresh");
-        if (over) ctx.witness("overwrite");
       }
     };
     auto del = [&](int k, bool claim) {
@@ -663,7 +670,6 @@ struct HtableFamily : Family {
       if (live) in->model.erase(it);
       if (ctx.checking) {
         ctx.outcome(live ? "existing" : "missing");
-        if (!live) ctx.witness("remove_missing");
       }
     };
     switch (op.c) {
@@ -710,12 +716,25 @@ struct HtableFamily : Family {
     unsigned       sz = exd_ht_size(h);
     std::string    k  = "s" + std::to_string(exd_ht_seed(h)) + "z" + std::to_string(sz) + "n" + std::to_string(exd_ht_num_keys(h)) + "c" +
                     std::to_string(exd_ht_num_collisions(h)) + "t" + std::to_string(exd_ht_total_chain(h)) + "b" + std::to_string(in->bg) + "|";
+    // live key set: the background stack depth plus, for every live ACTIVE key, its bucket and its rank among
+    // the active keys chained in that bucket (chain order relative to background keys is not part of the key:
+    // lookups, removals and the rehash find entries by key equality wherever they are in a chain)
+    std::map<unsigned, std::vector<std::pair<long, int>>> chains;
     for (auto &kv : in->model) {
+      if (kv.first >= in->A) continue;
       const void *kp  = in->fr->keyptr(in->cand[(size_t)kv.first], in->variant[kv.first]);
       unsigned    idx = exd_ht_hash(h, kp) & (sz - 1);
-      k += std::to_string(kv.first) + "@" + std::to_string(idx) + "." + std::to_string(exd_ht_chainpos(h, kp));
-      if (in->fr->case_insensitive()) k += in->variant[kv.first] ? "U" : "l";
-      k += ",";
+      chains[idx].push_back({ exd_ht_chainpos(h, kp), kv.first });
+    }
+    for (auto &c : chains) {
+      std::sort(c.second.begin(), c.second.end());
+      k += "@" + std::to_string(c.first) + ":";
+      for (auto &e : c.second) {
+        k += (e.first < 0 ? "?" : "") + std::to_string(e.second);
+        if (in->fr->case_insensitive()) k += in->variant[e.second] ? "U" : "l";
+        k += ".";
+      }
+      k += "/" + std::to_string(exd_ht_bucket_len(h, c.first));
     }
     return k;
   }
